@@ -456,6 +456,7 @@ class NNFizer(DagWalker):
 
         else:
             assert formula.is_str_op() or \
+                formula.is_select() or \
                 formula.is_symbol() or \
                 formula.is_function_application() or \
                 formula.is_bool_constant() or \
@@ -531,9 +532,16 @@ class NNFizer(DagWalker):
         #pylint: disable=unused-argument
         return formula
 
-    @handles(op.THEORY_OPERATORS)
+    @handles(op.THEORY_OPERATORS - {op.ARRAY_SELECT})
     def walk_theory_op(self, formula, **kwargs):
         #pylint: disable=unused-argument
+        return None
+
+    def walk_array_select(self, formula, **kwargs):
+        #pylint: disable=unused-argument
+        # A select can be of boolean type: it is an atom
+        if self.env.stc.get_type(formula).is_bool_type():
+            return formula
         return None
 
 # EOC NNFizer
@@ -703,9 +711,16 @@ class PrenexNormalizer(DagWalker):
                 return (quantifiers + [(self.mgr.ForAll, nq)]), matrix
         return quantifiers, matrix
 
-    @handles(op.THEORY_OPERATORS)
+    @handles(op.THEORY_OPERATORS - {op.ARRAY_SELECT})
     def walk_theory_op(self, formula: FNode, **kwargs):
         #pylint: disable=unused-argument
+        return None
+
+    def walk_array_select(self, formula: FNode, **kwargs) -> Optional[Tuple[List[Any], FNode]]:
+        #pylint: disable=unused-argument
+        # A select can be of boolean type: it is an atom
+        if self.env.stc.get_type(formula).is_bool_type():
+            return [], formula
         return None
 
 # EOC PrenexNormalizer
